@@ -257,6 +257,21 @@ func (r *Run) Guard(fnName, cond, why string, opts ...GuardOpt) *Guard {
 			}
 		}
 	}
+	// tail propagation: `return f()` rejects exactly when f's error is non-nil, like
+	// `if err := f(); err != nil { return err }; return nil`
+	if ret, at := r.tailPropagates(fn, want); ret != nil {
+		blocked := false
+		for _, b := range opt.Before {
+			if len(r.P.FindCalls(fn, b, false)) > 0 {
+				blocked = true // the effect cannot come after a return
+			}
+		}
+		if !blocked {
+			f2, l2 := r.P.Pos(ret.Pos())
+			r.pass("K3-guard", fnName, "reject-if "+cond, fmt.Sprintf("the error is returned as the function's result at %s:%d (%s)", f2, l2, at), why, f2, l2)
+			return nil
+		}
+	}
 	// diagnose: list near misses (same operand set, different relation)
 	var near []string
 	for _, ig := range igs {
@@ -783,6 +798,14 @@ func (r *Run) Has(fnName, canon, why string) *Effect {
 		}
 	}
 	file, line := r.P.FnPos(fn)
+	set := map[string]bool{}
+	for _, e := range r.P.Effects(fn) {
+		set[e.Canon] = true
+	}
+	if implicitZeroStore(set, canon) {
+		r.pass("K4-effect", fnName, canon, "implicit: the field of the fresh allocation is never written, so it keeps its zero value", why, file, line)
+		return nil
+	}
 	// near miss: same callee
 	var near []string
 	head := canon
@@ -908,4 +931,38 @@ func normFull(s string) string {
 		}
 	}
 	return s[:i] + " @ " + strings.Join(out, " & ")
+}
+
+// tailPropagates finds a return of fn whose error result is a value v (not provably nil or non-nil)
+// such that `ne(nil,v)` in the block's context is one of the wanted guard texts.
+func (r *Run) tailPropagates(fn *ssa.Function, want []string) (*ssa.Return, string) {
+	ei := errResultIndex(fn.Signature)
+	if ei < 0 {
+		return nil, ""
+	}
+	env := r.P.Env(fn)
+	for _, b := range fn.Blocks {
+		if b == fn.Recover {
+			continue
+		}
+		ret, ok := lastInstr(b).(*ssa.Return)
+		if !ok || ei >= len(ret.Results) {
+			continue
+		}
+		v := retOperand(ret, ei)
+		if c, isC := v.(*ssa.Const); isC && c.Value == nil {
+			continue
+		}
+		if r.P.nonNilErr(v, b, 0) {
+			continue
+		}
+		c := Cond{"ne", &Path{Kind: "const", Name: "nil"}, env.of(v)}.canon()
+		full := normFull(fullCond(c, r.blockCtx(fn, b)))
+		for _, w := range want {
+			if full == w {
+				return ret, full
+			}
+		}
+	}
+	return nil, ""
 }
